@@ -1090,7 +1090,7 @@ func registeredSizes() []int {
 	seen := map[int]bool{}
 	var r []int
 	for _, t := range bmnumbers.AllTypes {
-		if s := t.GetSize(); !seen[s] {
+		if s := t.GetSize(); !seen[s] && s <= 64 { // an unsigned text holds at most 64 bits (wider sizes: FloPoCo types only)
 			seen[s] = true
 			r = append(r, s)
 		}
@@ -1107,7 +1107,14 @@ func showable(tn string, w int, m uint64) bool {
 	case tn == "float16":
 		return !(m&0x7c00 == 0x7c00 && m&0x03ff != 0)
 	case strings.HasPrefix(tn, "lqs"):
-		return m != uint64(1)<<uint(w-1)
+		sz := w
+		if t := bmnumbers.GetType(tn); t != nil && t.GetSize() > 0 {
+			sz = t.GetSize()
+		}
+		if sz < 64 {
+			m &= (uint64(1) << uint(sz)) - 1
+		}
+		return m != uint64(1)<<uint(sz-1)
 	}
 	return true
 }
@@ -1117,11 +1124,13 @@ func cmdUints(n int) {
 	rng := common.NewRng(common.Seed()*2750159 + 8008)
 	setLQRanges()
 	sizes := registeredSizes()
+	// every type family at its own register width, and (since repo_patches/C08-importuint-width.diff and
+	// C08-signed-narrow-export.diff) also registers narrower / wider than a sized type and narrow signed
 	showTypes := map[int][]string{
-		8:  {"unsigned", "hex", "bin", "fps8f4", "fxps8f3", "lqs8t1", "fps8f0", "lqs8t2", "hex", "bin"},
-		16: {"unsigned", "hex", "bin", "float16", "fps16f8", "fxps16f15", "lqs16t3", "hex", "bin", "float16"},
-		32: {"unsigned", "hex", "bin", "float32", "fps32f16", "fxps32f31", "lqs32t4", "hex", "bin", "float32"},
-		64: {"unsigned", "signed", "hex", "bin", "hex", "bin", "signed"},
+		8:  {"unsigned", "hex", "bin", "fps8f4", "fxps8f3", "lqs8t1", "fps8f0", "lqs8t2", "signed", "float32", "float16", "lqs16t1", "fps16f8", "fxps32f16"},
+		16: {"unsigned", "hex", "bin", "float16", "fps16f8", "fxps16f15", "lqs16t3", "signed", "float32", "fps8f4", "lqs32t2", "float16"},
+		32: {"unsigned", "hex", "bin", "float32", "fps32f16", "fxps32f31", "lqs32t4", "signed", "float16", "fps12f5", "lqs8t1", "float32"},
+		64: {"unsigned", "signed", "hex", "bin", "float32", "float16", "fps32f16", "fxps8f4", "lqs16t3", "signed"},
 	}
 	for vi, v := range u64Values(rng, n) {
 		for _, w := range []int{8, 16, 32, 64} {
@@ -1143,6 +1152,7 @@ func cmdUints(n int) {
 			ts := showTypes[w]
 			for k := 0; k < 2; k++ {
 				tn := ts[(vi*2+k+w)%len(ts)]
+				bmnumbers.EventuallyCreateType(tn, nil)
 				if showable(tn, w, m) {
 					valueCase([]string{"V", "show", strconv.Itoa(w), strconv.FormatUint(m, 10), tn})
 				}
